@@ -126,6 +126,10 @@ def run(ctx):
             cases.append(("magic:%d:code" % m, struct.pack("<H", m) + b"\r\n" + b"\0" * 12 + b"c" + b"\x01" * 47))
         for _ in range(40 if not ctx.thorough else 2000):
             cases.append(("random", bytes(rng.randrange(256) for _ in range(rng.choice([0, 3, 49, 50, 51, 200])))))
+        # corpus of past failures, first: a 3.12 file on which the built-in marshal.loads of CPython 3.12.1 dies with SIGSEGV
+        crash = os.path.join(core.VERIF, "ref", "c11_native_crash_312.hex")
+        if os.path.exists(crash):
+            cases.insert(0, ("recorded:native-crash-3.12", bytes.fromhex(open(crash).read().strip())))
         louts = drv.ask(["x.loadmodule 230 %s" % (c.hex() or "-") for _, c in cases])
         slow, kinds, timeouts = 0, {}, 0
         host_magic2 = w.r("host_magic")["magic"][:4]
@@ -160,7 +164,10 @@ def run(ctx):
             kinds[r["outcome"]] = kinds.get(r["outcome"], 0) + 1
             inp = {"input": name, "bytes": data.hex()[:6000], "length": len(data)}
             if r["outcome"] not in ("returned", "ImportError"):
-                key = "native-marshal-crash" if r["outcome"] == "worker-died" else "outcome:%s:%s" % (r["outcome"], name)
+                # the interpreter itself died: the built-in marshal.loads (files of the host's own version) when xdis's own
+                # reader survives the same bytes; anything else is a crash of its own kind
+                native_crash = r["outcome"] == "worker-died" and data[:2].hex() == host_magic2 and portable_within_budget(data)
+                key = "native-marshal-crash" if native_crash else "outcome:%s:%s" % (r["outcome"], name)
                 rep.violation(key, "load_module on %s (%d bytes): %s; only a return or ImportError is allowed" % (name, len(data), r["outcome"]),
                               dict(inp, call="xdis.load.load_module(file holding these bytes)", actual=r["outcome"]))
             elif r["events"]:
